@@ -4,8 +4,11 @@ import (
 	"fmt"
 	"go/ast"
 	"go/constant"
+	"go/token"
 	"go/types"
 	"strings"
+
+	"golang.org/x/tools/go/ssa"
 
 	"verif/ssvcheck/internal/core"
 	"verif/ssvcheck/internal/ens"
@@ -290,6 +293,8 @@ func runC09(c *core.Ctx) {
 
 	// ---------------- R5
 	checkResultMapping(c)
+	// ---------------- R6: per-signer limits hold under concurrent validation only if one message ID is validated at a time
+	checkValidationLocks(c, "C09-R6")
 }
 
 func filterReqs(all []Req, names ...string) []Req {
@@ -370,3 +375,72 @@ func checkResultMapping(c *core.Ctx) {
 var _ = ast.Inspect
 var _ = constant.Bool
 var _ types.Type
+
+// checkValidationLocks: the per-message-ID lock table of the message validator.
+// (L1) every access to the validationLocks map lies inside ONE critical section of
+// validationMutex: the mutex is locked and has not been unlocked on any path to the
+// access (an unlock between the lookup and the insert lets two validations of a new
+// ID race on the plain Go map — a fatal, unrecoverable runtime error — and install
+// two different locks for one ID);
+// (L2) the per-ID lock is taken before validationMutex is released;
+// (L3) the stateful validation of the message runs with the per-ID lock held until return.
+func checkValidationLocks(c *core.Ctx, rule string) {
+	f := fn(c, rule, mvPkg+".(*messageValidator).validateSSVMessage")
+	if f == nil {
+		return
+	}
+	fv, err := c.P.LookupField(mvPkg + ".messageValidator.validationLocks")
+	if err != nil {
+		c.Undischarged(rule, "anchor:messageValidator.validationLocks", err.Error())
+		return
+	}
+	isLocksMap := func(v ssa.Value) bool {
+		ld, ok := v.(*ssa.UnOp)
+		if !ok || ld.Op != token.MUL {
+			return false
+		}
+		fa, ok := ld.X.(*ssa.FieldAddr)
+		return ok && fieldVar(fa) == fv
+	}
+	n := 0
+	for _, g := range funcsWithAnon(f) {
+		a := c.E.Analyze(g)
+		for _, b := range g.Blocks {
+			for _, in := range b.Instrs {
+				what := ""
+				switch x := in.(type) {
+				case *ssa.Lookup:
+					if isLocksMap(x.X) {
+						what = "lookup"
+					}
+				case *ssa.MapUpdate:
+					if isLocksMap(x.Map) {
+						what = "insert"
+					}
+				}
+				if what == "" {
+					continue
+				}
+				n++
+				facts := a.FactsAt(in)
+				_, locked := facts.Has("called(sync.*Mutex.Lock(p0.validationMutex))")
+				_, unlocked := facts.Has("called(sync.*Mutex.*Unlock(p0.validationMutex))")
+				c.Decide(locked && !unlocked, rule, fmt.Sprintf("validateSSVMessage|validationLocks %s inside one critical section", what), c.P.Pos(in.Pos()),
+					"validationMutex locked and not released before the "+what,
+					fmt.Sprintf("the %s of validationLocks is not inside one critical section of validationMutex (locked=%v, already unlocked on every path=%v): concurrent validations of a new message ID race on the map and can install two locks for one ID", what, locked, unlocked))
+			}
+		}
+	}
+	c.Min(rule, n, 2, "accesses to validationLocks in validateSSVMessage")
+	perID := "phi(new:sync.Mutex, p0.validationLocks[*]#0)"
+	k := atCalls(c, rule, mvPkg+".(*messageValidator).validateSSVMessage", "sync.Mutex.Unlock", []Req{
+		{"per-id-lock-taken-first", "called(sync.Mutex.Lock(" + perID + "))", "the per-ID lock must be held before the table lock is released"},
+	})
+	c.Min(rule, k, 1, "release of validationMutex")
+	for _, callee := range []string{mvM + "validateConsensusMessage", mvM + "validatePartialSignatureMessage"} {
+		atCalls(c, rule, mvPkg+".(*messageValidator).validateSSVMessage", callee, []Req{
+			{"per-id-lock-held", "called(sync.Mutex.Lock(" + perID + "))", "per-signer state is read and updated under the message ID's lock"},
+			{"held-until-return", "deferred(sync.Mutex.Unlock(" + perID + "))", ""},
+		})
+	}
+}
